@@ -16,8 +16,8 @@ variable (env : Env) (inp : Node → Option Val)
 recorded value as their denotation within depth `D` -/
 def EvDen (D : Nat) : FEv → Prop
   | .read _ _ r x => env.refs r = x
-  | .call m w => denoteN env inp D m = (.ok w, false)
-  | .ucall _ => True
+  | .call m w => env.alive m.1 = true ∧ denoteN env inp D m = (.ok w, false)
+  | .ucall m => env.alive m.1 = true
 
 theorem replay_den (D : Nat) : ∀ (tr : Tr) (c : CellId) (p : Prog) (v : Val), Replay env tr p v →
     (∀ ev ∈ flat c tr, EvDen env inp D ev) →
@@ -47,10 +47,11 @@ theorem replay_den (D : Nat) : ∀ (tr : Tr) (c : CellId) (p : Prog) (v : Val), 
     | call m' k =>
       simp only [Replay] at hr
       obtain ⟨rfl, _, hr⟩ := hr
-      have hm : denoteN env inp D m' = (.ok w, false) := hev (.call m' w) (by simp [flat])
+      obtain ⟨hal, hm⟩ : env.alive m'.1 = true ∧ denoteN env inp D m' = (.ok w, false) :=
+        hev (.call m' w) (by simp [flat])
       have hm' := denoteN_mono_le env inp (show D ≤ d by simp only [nest] at hd; omega) m' _ hm
       have := ih c _ v hr (fun ev h => hev ev (by simp [flat, h])) d (by simpa [nest] using hd)
-      simp only [denoteBody, hm', this, Bool.or_false]
+      simp only [denoteBody, calleeAt_alive _ hal, hm', this, Bool.or_false]
     | ret _ => simp [Replay] at hr
     | raise _ => simp [Replay] at hr
     | reraise _ => simp [Replay] at hr
@@ -68,8 +69,9 @@ theorem replay_den (D : Nat) : ∀ (tr : Tr) (c : CellId) (p : Prog) (v : Val), 
         rw [denoteN]
         simp only [hunc, Bool.false_eq_true, if_false, hsub]
         cases w <;> simp [checkNone, hunc]
+      have hal : env.alive m'.1 = true := hev (.ucall m') (by simp [flat])
       have := iht c _ v hrt (fun ev h => hev ev (by simp [flat, h])) (d' + 1) (by omega)
-      simp only [denoteBody, hm', this, Bool.or_false]
+      simp only [denoteBody, calleeAt_alive _ hal, hm', this, Bool.or_false]
     | ret _ => simp [Replay] at hr
     | raise _ => simp [Replay] at hr
     | reraise _ => simp [Replay] at hr
@@ -79,8 +81,8 @@ theorem replay_den (D : Nat) : ∀ (tr : Tr) (c : CellId) (p : Prog) (v : Val), 
 theorem common_depth (L : List FEv)
     (h : ∀ ev ∈ L, match ev with
       | .read _ _ r x => env.refs r = x
-      | .call m w => Den env inp m (.ok w)
-      | .ucall _ => True) :
+      | .call m w => env.alive m.1 = true ∧ Den env inp m (.ok w)
+      | .ucall m => env.alive m.1 = true) :
     ∃ D, ∀ ev ∈ L, EvDen env inp D ev := by
   induction L with
   | nil => exact ⟨0, by simp⟩
@@ -92,8 +94,8 @@ theorem common_depth (L : List FEv)
       have := hD ev hm
       cases ev with
       | read c a r x => exact this
-      | call m w => exact denoteN_mono_le env inp hle m _ this
-      | ucall m => trivial
+      | call m w => exact ⟨this.1, denoteN_mono_le env inp hle m _ this.2⟩
+      | ucall m => exact this
     cases ev with
     | read c a r x =>
       refine ⟨D, ?_⟩
@@ -103,19 +105,19 @@ theorem common_depth (L : List FEv)
       · exact hev
       · exact hD ev hm
     | call m w =>
-      obtain ⟨D1, hD1⟩ := hev
+      obtain ⟨hal, D1, hD1⟩ := hev
       refine ⟨max D D1, ?_⟩
       intro ev hm
       simp only [List.mem_cons] at hm
       rcases hm with rfl | hm
-      · exact denoteN_mono_le env inp (Nat.le_max_right D D1) m _ hD1
+      · exact ⟨hal, denoteN_mono_le env inp (Nat.le_max_right D D1) m _ hD1⟩
       · exact lift _ (Nat.le_max_left D D1) ev hm
     | ucall m =>
       refine ⟨D, ?_⟩
       intro ev hm
       simp only [List.mem_cons] at hm
       rcases hm with rfl | hm
-      · trivial
+      · exact hev
       · exact hD ev hm
 
 theorem den_of_input (s : St) (n : Node) (v : Val) (hc : env.cached n.1 = true)
@@ -126,6 +128,7 @@ theorem den_of_input (s : St) (n : Node) (v : Val) (hc : env.cached n.1 = true)
 
 /-- **T2**: certificates imply that every held value is the denotation -/
 theorem cinv_sound (s : St) (hcached : ∀ m, (lookup s.data m).isSome → env.cached m.1 = true)
+    (halive : ∀ a b, (a, b) ∈ s.ge → env.alive a.cell = true)
     (hinv : CInv env s) :
     ∀ (h : Nat) (n : Node) (v : Val), rank s.data n = h → lookup s.data n = some v →
       Den env (inpOf s) n (.ok v) := by
@@ -139,16 +142,16 @@ theorem cinv_sound (s : St) (hcached : ∀ m, (lookup s.data m).isSome → env.c
     · obtain ⟨tr, hcert⟩ := hinv n v hl hin
       have hall : ∀ ev ∈ flat n.1 tr, match ev with
           | .read _ _ r x => env.refs r = x
-          | .call m w => Den env (inpOf s) m (.ok w)
-          | .ucall _ => True := by
+          | .call m w => env.alive m.1 = true ∧ Den env (inpOf s) m (.ok w)
+          | .ucall m => env.alive m.1 = true := by
         intro ev hm
         have hok := hcert.events ev hm
         cases ev with
         | read c a r x => exact hok.1
         | call m w =>
-          obtain ⟨hlm, hrk, _⟩ := hok
-          exact ih (rank s.data m) (by omega) m w rfl hlm
-        | ucall m => trivial
+          obtain ⟨hlm, hrk, hedge⟩ := hok
+          exact ⟨halive _ _ hedge, ih (rank s.data m) (by omega) m w rfl hlm⟩
+        | ucall m => exact halive _ _ hok
       obtain ⟨D, hD⟩ := common_depth env (inpOf s) _ hall
       have hb := replay_den env (inpOf s) D tr n.1 _ v hcert.replay hD (D + nest tr) (Nat.le_refl _)
       refine ⟨D + nest tr + 1, ?_⟩
@@ -162,9 +165,10 @@ theorem cinv_sound (s : St) (hcached : ∀ m, (lookup s.data m).isSome → env.c
       | none => simp [checkNone, hc, hcert.noneOK rfl]
 
 theorem cinv_good (s : St) (hcached : ∀ m, (lookup s.data m).isSome → env.cached m.1 = true)
+    (halive : ∀ a b, (a, b) ∈ s.ge → env.alive a.cell = true)
     (hinv : CInv env s) : Good env (inpOf s) s := by
   constructor
-  · intro n v _ hl; exact cinv_sound env s hcached hinv _ n v rfl hl
+  · intro n v _ hl; exact cinv_sound env s hcached halive hinv _ n v rfl hl
   · intro n v _ hi
     simp only [inpOf] at hi
     split at hi
